@@ -606,3 +606,48 @@ def r03g(ctx):
             else:
                 ctx.bad(cid, fpa.cls.module.loc(fpa.node) if fpa is not None else c.loc, f"{c.qual} lets filters pass below it, but `{p}` can be a collection aligned with the frame row by row and the relocation filters only the frame: the surviving rows meet the `{p}` values of other rows")
     ctx.floor("filter pass-through classes with a possible collection operand", n, 3)
+
+
+# operators on the filter pass-through list whose output VALUES differ from their input's (what a predicate compares)
+R03H_VALUE_CHANGING = {
+    "_expr.AsType": "a cast can change values (float -> int truncates, numbers -> bool, strings -> category codes)",
+    "_expr.ArrowStringConversion": "object -> string[pyarrow]: comparisons with missing values answer <NA> instead of True / False",
+    "_expr.ToTimestamp": "the index values become timestamps",
+}
+
+
+@rule(
+    "R03h",
+    ["C03", "C01"],
+    """A RELOCATED PREDICATE IS EVALUATED ON THE SAME VALUES: the generic relocation rewrites `op(x)[pred(op(x))]` into
+    `op(x[pred(x)])` - the predicate is re-evaluated on the operator's INPUT. That is only the same predicate when the operator
+    does not change the values the predicate reads. Operators on the pass-through list that do change values (casts,
+    conversions) must refuse the relocation when the predicate is computed from their own output.""",
+)
+def r03h(ctx):
+    model = ctx.model
+    n = 0
+    for q, why in sorted(R03H_VALUE_CHANGING.items()):
+        c = next((k for k in model.expr_classes() if k.qual == q), None)
+        if c is None:
+            raise AnalysisError(f"anchor vanished: class {q}")
+        if model.flag(c, "_filter_passthrough", default=False) is not True:
+            ctx.ok(f"{q}:value-changing-passthrough", c.loc, "filters do not pass")
+            continue
+        n += 1
+        fpa = c.provider("_filter_passthrough_available")
+        refused = False
+        if fpa is not None and isinstance(fpa.node, ast.FunctionDef):
+            par = fpa.node.args.args[1].arg
+            for pt in flow.returns(fpa.node):
+                if isinstance(pt.stmt.value, ast.Constant) and pt.stmt.value.value is False:
+                    for t, pol in flow.facts(pt):
+                        tx = unparse(t)
+                        if pol and f"{par}.predicate" in tx and "self._name" in tx and ("walk()" in tx or "find_operations" in tx or "dependencies" in tx):
+                            refused = True
+        cid = f"{q}:value-changing-passthrough"
+        if refused:
+            ctx.ok(cid, c.loc, "refused when the predicate reads the operator's own output")
+        else:
+            ctx.bad(cid, fpa.cls.module.loc(fpa.node) if fpa is not None else c.loc, f"{q} lets a filter pass and re-evaluates its predicate on the operator's input although {why}: rows are kept or dropped by the un-converted values")
+    ctx.floor("value-changing operators on the filter pass-through list", n, 1)
